@@ -160,6 +160,57 @@ func bigRingCase(n int, warp string) core.Case {
 	return core.Case{Lines: lines, Tag: "sync-big"}
 }
 
+// implSyncSpec: case kind "syncS" (rings of up to 2^24 slots; the Lean side answers with
+// the closed-form spec). Basic operations only; `warp k` only on a pristine ring (no
+// successful push, no earlier warp), anything else is bad-op on both sides.
+func implSyncSpec(c core.Case) []string {
+	var r ringz.SyncRing[int]
+	pristine := true
+	return core.RunOps(c,
+		func(hdr []string) string {
+			if len(hdr) != 2 {
+				return "bad-op"
+			}
+			n, err := strconv.Atoi(hdr[1])
+			if err != nil || (n > 1<<24 && n <= 1<<31) {
+				return "bad-op"
+			}
+			r = ringz.NewSync[int](n)
+			return "ok"
+		},
+		func(t []string) string {
+			if n, err := strconv.Atoi(core.Toks(c.Lines[0])[3]); err != nil || (n > 1<<24 && n <= 1<<31) {
+				return "bad-op"
+			}
+			if len(t) == 2 && t[0] == "warp" {
+				k, err := strconv.ParseUint(t[1], 10, 64)
+				if err != nil || !pristine {
+					return "bad-op"
+				}
+				f := fieldsOf(&r)
+				if !f.ok {
+					return "warp-unsupported"
+				}
+				f.warp(k)
+				pristine = false
+				return "ok"
+			}
+			if t[0] == "init" || t[0] == "dump" {
+				return "bad-op"
+			}
+			o := syncBasicOp(&r, t)
+			if t[0] == "push" && o == "true" {
+				pristine = false
+			}
+			return o
+		})
+}
+
+func isSyncSpec(c core.Case) bool {
+	h := core.Toks(c.Lines[0])
+	return len(h) >= 3 && h[2] == "syncS"
+}
+
 // extraCapRounding: (a) NewSync[struct{}](n).Cap() for all 2^k, 2^k±1, 2^k±2, 3·2^(k-1)
 // (k <= 22 quick, <= 28 thorough) and random n, against the least power of two and the
 // Lean syncCap; (b) fill/drain runs on large rings (independent FIFO oracle; the Lean
@@ -245,6 +296,31 @@ func extraCapRounding(ctx *core.Ctx) (evals int, note string, fails []core.Extra
 			tied = append(tied, c)
 		}
 	}
+	// three-way on EVERY big ring (also above 2^20 slots): implementation, FIFO oracle, and the
+	// Lean closed-form spec (`syncS`)
+	var spec []core.Case
+	for _, n := range append(append([]int{}, big...), 1<<21+1, 3<<20) {
+		c := bigRingCase(n, []string{"", "4294967294", "8589934591"}[n%3])
+		c.Lines[0] = fmt.Sprintf("@ C10 syncS %d", n)
+		spec = append(spec, c)
+	}
+	if lo, err := core.RunOracle(ctx.VerifDir, spec); err == nil {
+		for i, c := range spec {
+			out := implSyncSpec(c)
+			evals += len(c.Lines)
+			runs++
+			sc := core.Case{Lines: append([]string{strings.Replace(c.Lines[0], "syncS", "sync", 1)}, c.Lines[1:]...)}
+			add(checkSyncMax(sc, out, 1<<24), c, false)
+			for j := range c.Lines {
+				if lo[i][j] != out[j] {
+					add(&core.Failure{Key: "syncring-big-model", Desc: fmt.Sprintf("line %d %q: implementation %q, Lean spec (capacity syncCap n) %q", j, c.Lines[j], out[j], lo[i][j])}, c, false)
+					break
+				}
+			}
+		}
+	} else {
+		add(&core.Failure{Key: "syncring-big-model", Desc: "oracle not runnable: " + err.Error()}, core.Case{}, true)
+	}
 	if lo, err := core.RunOracle(ctx.VerifDir, tied); err == nil {
 		for i, c := range tied {
 			out := implSyncMax(c, 1<<24)
@@ -258,7 +334,7 @@ func extraCapRounding(ctx *core.Ctx) (evals int, note string, fails []core.Extra
 	}
 	// (c)
 	rupNote := rupTie(ctx, &evals, add)
-	return evals, fmt.Sprintf("Cap() of %d requests (all 2^k, 2^k±1, 2^k±2, 3·2^(k-1) for k<=%d, random, <=0, >2^31) against the least power of two and the Lean syncCap (%d model differences); %d fill/drain runs on rings of 2^17..2^%d slots; %s",
+	return evals, fmt.Sprintf("Cap() of %d requests (all 2^k, 2^k±1, 2^k±2, 3·2^(k-1) for k<=%d, random, <=0, >2^31) against the least power of two and the Lean syncCap (%d model differences); %d fill/drain runs on rings of 2^17..2^%d slots (implementation vs FIFO oracle vs Lean: slot-level model up to 2^20, closed-form spec for all incl. 2^22 / 2^24); %s",
 		len(ns), kmax, modelDiff, runs, map[bool]int{false: 20, true: 24}[ctx.Tier == "thorough"], rupNote), fails
 }
 
